@@ -17,7 +17,10 @@ import (
 	"verif/vkit"
 )
 
-var Names = []string{"a", "b", "c", "d", "e"}
+// The names are distinct strings that an ad-hoc encoding of a (source, target)
+// pair would confuse: "a->b" with "c" and "a" with "b->c" both spell
+// "a->b->c".  Each is a type name of its own (any non-empty string is one).
+var Names = []string{"a", "b->c", "a->b", "c", "b"}
 
 type Op struct {
 	K    string `json:"k"`              // reg clear cleartype
